@@ -6,6 +6,8 @@ Layer kinds:
   wmsO   direct WMS source, `transparent: false` (is_opaque() is True -> layers below are pruned), feature info
   cache  png cache over a WMS source with feature info      -> also a TMS / KML / WMTS tile layer
   cachej jpeg cache over a WMS source with feature info     -> also a tile layer (jpeg tiles)
+Oblique worlds (FRAMES): the same layer trees on a tile grid in a polar stereographic SRS; lattice coordinates are mapped
+to SRS coordinates by an origin and a scale, limited_to geometries are given in EPSG:4326.
 Every upstream paints its whole answer with the colour of its layer; feature info upstreams answer `info:<layer>`.
 Upstream requests are logged (layer, kind).  Caches do not store (disable_storage), so every request that renders a
 layer reaches its upstream.
@@ -25,6 +27,51 @@ GRID = dict(bbox=(0, 0, 1280, 640), res=(40, 20, 10), tile_size=(4, 4))      # l
 # window of all limited_to geometries (the outer ring of cells is never a member)
 WINDOW = (-400, -400, 1680, 1040)
 
+# "oblique" worlds: the tile grid lives in a polar stereographic SRS, limited_to geometries are given natively in
+# EPSG:4326 (parallels are circles around the pole, straight lines of the lon/lat plane are curves in the grid SRS and
+# vice versa).  Lattice coordinates stay integers: SRS x = origin[0] + scale * lattice x (same for y).  The pole is
+# outside the grid, `d` lattice units above the middle of its upper edge region; the tile column that straddles the
+# meridian through the pole has an upper edge that bulges several pixels over the parallel through its corners.
+#   A: level 0 tile column 2 is SRS x -32 .. 32 (symmetric), upper grid edge 24 units from the pole
+#   B: level 1 tile column 5 is SRS x -16 .. 16 (symmetric), level 0 column 2 is -48 .. 16, upper grid edge 16 units
+#   C: tiles of 32 x 32 pixels (more pixels per bulge: tiles away from that column are curved by several pixels, too),
+#      level 0 tile column 2 is SRS x -32 .. 32, upper grid edge 40 units from the pole
+FRAMES = {
+    'A': dict(srs='EPSG:3995', srs_path='EPSG3995', scale=20000, origin=(-160 * 20000, -(24 + 128) * 20000),
+              grid=dict(bbox=(0, 0, 256, 128), res=(4, 2, 1), tile_size=(16, 16))),
+    'B': dict(srs='EPSG:3995', srs_path='EPSG3995', scale=20000, origin=(-176 * 20000, -(16 + 128) * 20000),
+              grid=dict(bbox=(0, 0, 256, 128), res=(4, 2, 1), tile_size=(16, 16))),
+    'C': dict(srs='EPSG:3995', srs_path='EPSG3995', scale=25000, origin=(-160 * 25000, -(40 + 128) * 25000),
+              grid=dict(bbox=(0, 0, 256, 128), res=(2, 1), tile_size=(32, 32))),
+}
+
+_TRANSF = {}
+
+
+def lattice_to_lonlat(frame, xs, ys):
+    """lattice coordinates (arrays) of an oblique frame -> lon, lat (pyproj point transforms only)"""
+    import numpy as np
+    from pyproj import Transformer
+    fr = FRAMES[frame]
+    key = (fr['srs'], 'inv')
+    if key not in _TRANSF:
+        _TRANSF[key] = Transformer.from_crs(fr['srs'], 'EPSG:4326', always_xy=True)
+    x = fr['origin'][0] + fr['scale'] * np.asarray(xs, dtype=float)
+    y = fr['origin'][1] + fr['scale'] * np.asarray(ys, dtype=float)
+    return _TRANSF[key].transform(x, y)
+
+
+def lonlat_to_lattice(frame, lons, lats):
+    import numpy as np
+    from pyproj import Transformer
+    fr = FRAMES[frame]
+    key = (fr['srs'], 'fwd')
+    if key not in _TRANSF:
+        _TRANSF[key] = Transformer.from_crs('EPSG:4326', fr['srs'], always_xy=True)
+    x, y = _TRANSF[key].transform(np.asarray(lons, dtype=float), np.asarray(lats, dtype=float))
+    return (np.asarray(x) - fr['origin'][0]) / fr['scale'], (np.asarray(y) - fr['origin'][1]) / fr['scale']
+
+
 _PNG = {}
 
 
@@ -43,8 +90,16 @@ class _Resp(io.BytesIO):
 
 
 class World(object):
-    def __init__(self, kinds, group=('b', 'c'), group_this=None):
-        """kinds: {'a': 'wmsT', 'b': 'cache', ...} (insertion order = bottom-to-top order of the tree)."""
+    def __init__(self, kinds, group=('b', 'c'), group_this=None, frame=None):
+        """kinds: {'a': 'wmsT', 'b': 'cache', ...} (insertion order = bottom-to-top order of the tree).
+        frame: None (lattice = EPSG:3857 metres) or a key of FRAMES (oblique world)."""
+        self.frame = frame
+        fr = FRAMES[frame] if frame else None
+        self.srs = fr['srs'] if fr else SRS
+        self.srs_path = fr['srs_path'] if fr else SRS_PATH
+        self.grid = fr['grid'] if fr else GRID
+        self.origin = fr['origin'] if fr else (0, 0)
+        self.scale = fr['scale'] if fr else 1
         self.kinds = dict(kinds)
         self.names = [n for n in ('a', 'b', 'c') if n in kinds]
         self.group = tuple(n for n in group if n in kinds)
@@ -57,8 +112,15 @@ class World(object):
         return [n for n in self.names + (['g'] if self.group_this else []) if self.kinds[n].startswith('cache')]
 
     def key(self):
-        return '%s|%s|%s' % (','.join('%s=%s' % (n, self.kinds[n]) for n in self.names), ','.join(self.group),
-                             self.group_this or '-')
+        return '%s|%s|%s|%s' % (','.join('%s=%s' % (n, self.kinds[n]) for n in self.names), ','.join(self.group),
+                                self.group_this or '-', self.frame or '-')
+
+    def sx(self, lx):
+        """lattice x -> SRS x"""
+        return self.origin[0] + self.scale * lx
+
+    def sy(self, ly):
+        return self.origin[1] + self.scale * ly
 
 
 class App(object):
@@ -106,15 +168,16 @@ class App(object):
     def _conf(self):
         w = self.w
         d = self.dir
-        grids = {'g': {'srs': SRS, 'bbox': list(GRID['bbox']), 'res': list(GRID['res']), 'tile_size': list(GRID['tile_size']),
-                       'origin': 'ul'}}
+        gb = w.grid['bbox']
+        grids = {'g': {'srs': w.srs, 'bbox': [w.sx(gb[0]), w.sy(gb[1]), w.sx(gb[2]), w.sy(gb[3])],
+                       'res': [w.scale * r for r in w.grid['res']], 'tile_size': list(w.grid['tile_size']), 'origin': 'ul'}}
         sources, caches = {}, {}
 
         def layer_sources(n):
             kind = w.kinds[n]
             src = {'type': 'wms', 'req': {'url': 'http://up-%s/service' % n, 'layers': n,
                                           'transparent': kind != 'wmsO'},
-                   'supported_srs': [SRS], 'wms_opts': {'featureinfo': True}}
+                   'supported_srs': [w.srs], 'wms_opts': {'featureinfo': True}}
             sources['s' + n] = src
             if kind in ('wmsT', 'wmsO'):
                 return ['s' + n]
@@ -136,7 +199,7 @@ class App(object):
             layers.append(g)
         services = {'tms': {}, 'kml': {}, 'wmts': {'restful': True, 'kvp': True,
                                                     'featureinfo_formats': [{'mimetype': 'text/plain', 'suffix': 'txt'}]},
-                    'wms': {'srs': [SRS, SRS_ALIAS], 'image_formats': ['image/png', 'image/jpeg'],
+                    'wms': {'srs': [SRS, SRS_ALIAS] if not w.frame else [w.srs], 'image_formats': ['image/png', 'image/jpeg'],
                             'featureinfo_types': ['text']}}
         return {
             'globals': {'image': {'paletted': False, 'resampling_method': 'nearest'},
